@@ -55,7 +55,9 @@ RULE = ("histories = 1..10 calls of set_patt_len/set_prbs_order/set_bits_shift/s
         "data lengths {1,2,1023,1024,1025,2047,2048,2049,3072,4097,10^4,random}, start addresses {1,2,1023..1026,random, end of "
         "memory}, 1-D / string (also with ',' and ' ' separators) / 2-D per-channel data fitting exactly, one bit too long and with "
         "rows != bits at the end of the memory; SYNC = PRBS7/9/11 (full period or >=32-slot prefix) x sps x every delay d<l x fill {cyclic,zeros} x noise "
-        "{0,0.05,0.1,0.2}; non-trivial = history that emitted >=1 command (distinct by content hash) / SYNC case with l>=2 "
+        "{0,0.05,0.1,0.2,...}, received record of every numeric dtype (int8/16/32, uint8/16 raw codes using the dtype's range, float32/64) x "
+        "pattern kind (binary_sequence, uint8/int64/bool/float ndarray, list); every call is made twice, positionally in the documented "
+        "order and by keyword (sig C20:positional:<func>); non-trivial = history that emitted >=1 command (distinct by content hash) / SYNC case with l>=2 "
         "(distinct by pattern, sps, d, fill, sigma)")
 PARTIAL = [
     "printf conversions {v:.1f} (amplitude, offset) and {v:.5e} (frequency) are not modelled in Lean: the harness formats the model's "
@@ -359,45 +361,57 @@ class FakeVisa:
 # running the real code
 # ------------------------------------------------------------------------------------------------------------------
 
-def _call_op(ppg, op):
+PPG_SIGNATURES = {      # documented positional order of the public methods at /repo HEAD 8caea4c (literal, not read from the code)
+    "set_patt_len": ["patt_len", "CHs"], "get_patt_len": ["CHs"], "set_mode": ["mode", "CHs"], "get_mode": ["CHs"],
+    "set_prbs_order": ["order", "CHs"], "get_prbs_order": ["CHs"], "set_data": ["data", "start_addrs", "CHs"],
+    "get_data": ["size", "start_addrs", "CHs"], "set_bits_shift": ["bsh", "CHs"], "get_bits_shift": ["CHs"],
+    "enable_outputs": ["CHs"], "disable_outputs": ["CHs"], "set_freq": ["freq"], "get_freq": [], "set_skew": ["skew", "CHs"],
+    "get_skew": ["CHs"], "set_output_voltage": ["amplitude", "CHs"], "get_output_voltage": ["CHs"],
+    "set_offset": ["offset", "CHs"], "get_offset": ["CHs"], "reset": [],
+    "__call__": ["freq", "patt_len", "Vout", "offset", "bsh", "skew", "mode", "order", "data", "CHs"],
+}
+GETTERS = {"pattLen": "get_patt_len", "mode": "get_mode", "prbsOrder": "get_prbs_order", "bitsShift": "get_bits_shift",
+           "skew": "get_skew", "volt": "get_output_voltage", "offs": "get_offset"}
+
+
+def op_call(op):
+    """(method name, argument list in the documented order)"""
     name = op["op"]
-    if name == "pattlen":
-        return ppg.set_patt_len(mk_val(op["v"]), mk_chs(op["chs"]))
-    if name == "order":
-        return ppg.set_prbs_order(mk_val(op["v"]), mk_chs(op["chs"]))
-    if name == "bsh":
-        return ppg.set_bits_shift(mk_val(op["v"]), mk_chs(op["chs"]))
-    if name == "skew":
-        return ppg.set_skew(mk_val(op["v"]), mk_chs(op["chs"]))
-    if name == "volt":
-        return ppg.set_output_voltage(mk_val(op["v"]), mk_chs(op["chs"]))
-    if name == "offs":
-        return ppg.set_offset(mk_val(op["v"]), mk_chs(op["chs"]))
+    if name in ("pattlen", "order", "bsh", "skew", "volt", "offs"):
+        m = {"pattlen": "set_patt_len", "order": "set_prbs_order", "bsh": "set_bits_shift", "skew": "set_skew",
+             "volt": "set_output_voltage", "offs": "set_offset"}[name]
+        return m, [mk_val(op["v"]), mk_chs(op["chs"])]
     if name == "freq":
-        return ppg.set_freq(mk_val(op["v"]))
+        return "set_freq", [mk_val(op["v"])]
     if name == "mode":
-        return ppg.set_mode(op["m"], mk_chs(op["chs"]))
+        return "set_mode", [op["m"], mk_chs(op["chs"])]
     if name == "outp":
-        return (ppg.enable_outputs if op["on"] else ppg.disable_outputs)(mk_chs(op["chs"]))
+        return ("enable_outputs" if op["on"] else "disable_outputs"), [mk_chs(op["chs"])]
     if name == "setdata":
-        return ppg.set_data(mk_data(op["d"]), op["start"], mk_chs(op["chs"]))
+        return "set_data", [mk_data(op["d"]), op["start"], mk_chs(op["chs"])]
     if name == "getdata":
-        return ppg.get_data(op["size"], op["start"], mk_chs(op["chs"]))
+        return "get_data", [op["size"], op["start"], mk_chs(op["chs"])]
     if name == "get":
-        f = {"pattLen": ppg.get_patt_len, "mode": ppg.get_mode, "prbsOrder": ppg.get_prbs_order,
-             "bitsShift": ppg.get_bits_shift, "skew": ppg.get_skew, "volt": ppg.get_output_voltage,
-             "offs": ppg.get_offset}[op["q"]]
-        return f(mk_chs(op["chs"]))
+        return GETTERS[op["q"]], [mk_chs(op["chs"])]
     if name == "getfreq":
-        return ppg.get_freq()
+        return "get_freq", []
     if name == "rst":
-        return ppg.reset()
+        return "reset", []
     if name == "call":
         kw = {k: (mk_val(v) if isinstance(v, dict) and "t" in v else v) for k, v in op["kw"].items()}
         if "data" in kw:
             kw["data"] = mk_data(op["kw"]["data"])
-        return ppg(CHs=mk_chs(op["chs"]), **kw)
+        kw["CHs"] = mk_chs(op["chs"])
+        return "__call__", [kw.get(k) for k in PPG_SIGNATURES["__call__"]]
     raise ValueError(name)
+
+
+def _call_op(ppg, op, positional=True):
+    m, args = op_call(op)
+    f = getattr(ppg, m)
+    if positional:
+        return f(*args)
+    return f(**dict(zip(PPG_SIGNATURES[m], args)))
 
 
 def _jsonable(r):
@@ -410,7 +424,7 @@ def _jsonable(r):
     return repr(r)[:200]
 
 
-def run_hist(case):
+def _run_hist_once(case, positional):
     from opticomlib.lab import PPG3204
     ppg = PPG3204()
     fake = None
@@ -422,25 +436,22 @@ def run_hist(case):
         rec = {}
         buf = io.StringIO()
         n0 = len(fake.log) if fake else 0
-        try:
-            with warnings.catch_warnings(record=True) as w, contextlib.redirect_stdout(buf):
-                warnings.simplefilter("always")
-                try:
-                    with time_limit(60):
-                        ret = _call_op(ppg, op)
-                    rec["status"] = "ok"
-                    rec["ret"] = _jsonable(ret)
-                except Timeout as e:
-                    rec["status"] = "timeout"
-                    rec["detail"] = str(e)
-                except Exception as e:  # noqa
-                    rec["status"] = "err"
-                    rec["err"] = exc_enum(e)
-                    rec["detail"] = repr(e)[:160]
-            rec["warned"] = any(issubclass(x.category, UserWarning) for x in w)
-            rec["nwarn"] = len(w)
-        finally:
-            pass
+        with warnings.catch_warnings(record=True) as w, contextlib.redirect_stdout(buf):
+            warnings.simplefilter("always")
+            try:
+                with time_limit(60):
+                    ret = _call_op(ppg, op, positional)
+                rec["status"] = "ok"
+                rec["ret"] = _jsonable(ret)
+            except Timeout as e:
+                rec["status"] = "timeout"
+                rec["detail"] = str(e)
+            except Exception as e:  # noqa
+                rec["status"] = "err"
+                rec["err"] = exc_enum(e)
+                rec["detail"] = repr(e)[:160]
+        rec["warned"] = any(issubclass(x.category, UserWarning) for x in w)
+        rec["nwarn"] = len(w)
         if fake:
             rec["cmds"] = list(fake.log[n0:])
         else:
@@ -450,7 +461,23 @@ def run_hist(case):
         del ppg.inst
     except AttributeError:
         pass
-    return {"status": "ok", "ops": ops_out}
+    return ops_out
+
+
+def run_hist(case):
+    ops_out = _run_hist_once(case, positional=True)
+    # positional twin: the same history with every argument bound by its documented name
+    kw_out = _run_hist_once(case, positional=False)
+    diffs = []
+    for op, a, b in zip(case["ops"], ops_out, kw_out):
+        keys = ("status", "err", "warned", "cmds", "ret")
+        if any(json.dumps(a.get(k), default=str) != json.dumps(b.get(k), default=str) for k in keys):
+            k = next(k for k in keys if json.dumps(a.get(k), default=str) != json.dumps(b.get(k), default=str))
+            diffs.append({"func": op_call(op)[0], "field": k, "positional": str(a.get(k))[:120], "keyword": str(b.get(k))[:120]})
+    res = {"status": "ok", "ops": ops_out}
+    if diffs:
+        res["twin_diff"] = diffs
+    return res
 
 
 def sync_rx(case):
@@ -477,16 +504,31 @@ def sync_rx(case):
     return tx, w, rx
 
 
-def run_sync(case):
-    from opticomlib.lab import SYNC
-    from opticomlib.typing import electrical_signal, binary_sequence, gv
+CODE_LEVELS = {   # (level of slot 0, level of slot 1, noise sigma) using most of each acquisition dtype's range
+    "int8": (-100, 100, 6), "int16": (2000, 30000, 500), "int32": (-2000000000, 2000000000, 50000000),
+    "uint8": (20, 230, 6), "uint16": (1000, 60000, 1000), "float32": (0.1, 0.5, 0.02), "float64": (0.1, 0.5, 0.02),
+}
+PATTERN_KINDS = ["binary_sequence", "uint8", "int64", "bool", "float", "list"]
+SYNC_SIGNATURE = ["signal_rx", "slots_tx", "sps"]          # documented positional order at /repo HEAD 8caea4c (literal)
+
+
+def sync_record(case):
+    """(tx, w, clean record as float array, the record handed to SYNC)"""
     tx, w, rx = sync_rx(case)
-    res = {"l": int(len(w)), "n": int(len(rx))}
-    aper = True
-    if len(w) > 1:
-        W = np.concatenate([w, w])
-        aper = not any(np.array_equal(W[m:m + len(w)], w) for m in range(1, len(w)))
-    res["aperiodic"] = bool(aper)
+    if case.get("codes"):
+        dt = case["codes"]["dtype"]
+        lo, hi, sg = CODE_LEVELS[dt]
+        l = len(w)
+        k = np.arange(len(rx))
+        clean = lo + (hi - lo) * w[(k - case["d"]) % l].astype(float)
+        if case["fill"] == "zeros":
+            clean[:case["d"]] = lo
+        rs = np.random.RandomState(case["noise_seed"])
+        x = clean + (sg * rs.standard_normal(len(rx)) if case["codes"].get("noisy", True) else 0.0)
+        if dt.startswith(("int", "uint")):
+            info = np.iinfo(dt)
+            x = np.clip(np.round(x), info.min, info.max)
+        return tx, w, clean, x.astype(dt)
     sigma = case.get("sigma", 0)
     if sigma:
         rs = np.random.RandomState(case["noise_seed"])
@@ -495,12 +537,65 @@ def run_sync(case):
         rxf = rx.astype(np.int64)
     else:
         rxf = rx.astype(float)
+    return tx, w, rx.astype(float), rxf
+
+
+def pattern_object(tx, kind):
+    from opticomlib.typing import binary_sequence
+    if kind == "binary_sequence":
+        return binary_sequence(tx)
+    if kind == "list":
+        return [int(b) for b in tx]
+    return tx.astype({"uint8": np.uint8, "int64": np.int64, "bool": bool, "float": float}[kind])
+
+
+def _sync_call(case, rxf, tx, positional):
+    from opticomlib.lab import SYNC
+    from opticomlib.typing import electrical_signal, binary_sequence, gv
+    res = {}
     before = rxf.copy()
-    if sigma and len(w) > 0 and len(rx) >= 2 * len(w) - 1:
+    form = case.get("form", "ndarray")
+    try:
+        with warnings.catch_warnings():
+            warnings.simplefilter("ignore")
+            with time_limit(60):
+                if form == "objects":
+                    old = gv.sps
+                    try:
+                        gv.sps = case["sps"]
+                        args = [electrical_signal(rxf), binary_sequence(tx), None]
+                        out, i = SYNC(*args) if positional else SYNC(**dict(zip(SYNC_SIGNATURE, args)))
+                    finally:
+                        gv.sps = old
+                else:
+                    args = [rxf, pattern_object(tx, case.get("pat_kind", "int64")), case["sps"]]
+                    out, i = SYNC(*args) if positional else SYNC(**dict(zip(SYNC_SIGNATURE, args)))
+        sig = np.asarray(out.signal)
+        res.update(status="ok", index=int(i), outlen=int(sig.shape[0]) if sig.ndim == 1 else -1,
+                   cls=type(out).__name__, sig_dtype=str(sig.dtype),
+                   sig_ok=bool(sig.ndim == 1 and np.array_equal(sig, before[int(i):int(i) + sig.shape[0]])),
+                   noise_none=bool(out.noise is None), rx_unchanged=bool(np.array_equal(rxf, before)))
+    except Timeout as e:
+        res.update(status="timeout", detail=str(e))
+    except Exception as e:  # noqa
+        res.update(status="err", err=exc_enum(e), detail=repr(e)[:160])
+    return res
+
+
+def run_sync(case):
+    tx, w, clean, rxf = sync_record(case)
+    res = {"l": int(len(w)), "n": int(len(rxf))}
+    aper = True
+    if len(w) > 1:
+        W = np.concatenate([w, w])
+        aper = not any(np.array_equal(W[m:m + len(w)], w) for m in range(1, len(w)))
+    res["aperiodic"] = bool(aper)
+    noisy = bool(case.get("sigma", 0)) or bool(case.get("codes"))
+    if noisy and len(w) > 0 and len(rxf) >= 2 * len(w) - 1:
         # hypothesis of Props.C20.sync_margin_general evaluated numerically: ce(m) - ce(d) < cc(d) - cc(m) for all m != d
         l = len(w)
-        cc = np.correlate(rx[:2 * l - 1].astype(float), w.astype(float), "valid")
-        ce = np.correlate((rxf - rx)[:2 * l - 1], w.astype(float), "valid")
+        cc = np.correlate(clean[:2 * l - 1], w.astype(float), "valid")
+        ce = np.correlate((rxf.astype(float) - clean)[:2 * l - 1], w.astype(float), "valid")
         dd = case["d"]
         if dd < len(cc):
             slack = (cc[dd] - cc) - (ce - ce[dd])
@@ -511,29 +606,12 @@ def run_sync(case):
             res["gap"] = float(np.min(np.delete(cc[dd] - cc, dd))) if len(cc) > 1 else None
             tot = np.sort(cc + ce)
             res["top_sep"] = float(tot[-1] - tot[-2]) if len(tot) > 1 else 1.0
-    form = case.get("form", "ndarray")
-    try:
-        with warnings.catch_warnings():
-            warnings.simplefilter("ignore")
-            with time_limit(60):
-                if form == "objects":
-                    old = gv.sps
-                    try:
-                        gv.sps = case["sps"]
-                        out, i = SYNC(electrical_signal(rxf), binary_sequence(tx), None)
-                    finally:
-                        gv.sps = old
-                else:
-                    out, i = SYNC(rxf, tx, case["sps"])
-        sig = np.asarray(out.signal)
-        res.update(status="ok", index=int(i), outlen=int(sig.shape[0]) if sig.ndim == 1 else -1,
-                   cls=type(out).__name__,
-                   sig_ok=bool(sig.ndim == 1 and np.array_equal(sig, before[int(i):int(i) + sig.shape[0]])),
-                   noise_none=bool(out.noise is None), rx_unchanged=bool(np.array_equal(rxf, before)))
-    except Timeout as e:
-        res.update(status="timeout", detail=str(e))
-    except Exception as e:  # noqa
-        res.update(status="err", err=exc_enum(e), detail=repr(e)[:160])
+    res.update(_sync_call(case, rxf, tx, positional=True))
+    # positional twin: the same call with the arguments bound by the documented names must give the identical result
+    kw = _sync_call(case, rxf.copy(), tx, positional=False)
+    keys = ("status", "err", "index", "outlen", "cls", "sig_dtype", "sig_ok")
+    if any(kw.get(k) != res.get(k) for k in keys):
+        res["twin_diff"] = {k: [res.get(k), kw.get(k)] for k in keys if kw.get(k) != res.get(k)}
     return res
 
 
@@ -597,16 +675,17 @@ def model_requests(case, res):
         return ["ppg.hist " + " ".join([str(len(case["ops"]))] + [enc_op(o) for o in case["ops"]])]
     if res.get("status") == "timeout":
         return []
-    tx, w, rx = sync_rx(case)
-    if case.get("sigma", 0):
+    tx, w, clean, rxf = sync_record(case)
+    if case.get("pat_kind") == "list":
+        return []                         # documented TypeError before any computation; oracle only
+    head = [str(case["sps"]), str(len(tx))] + [str(int(b)) for b in tx] + [str(len(rxf))]
+    if rxf.dtype.kind in "iu":            # integer codes (also the noisy ones): exact integer model
+        return ["ppg.sync " + " ".join(head + [str(int(x)) for x in rxf])]
+    if case.get("sigma", 0) or case.get("codes"):
         if len(w) > 300 or len(w) == 0:
             return []                     # exact rational run only for short waveforms (cost l^2 rational operations)
-        rs = np.random.RandomState(case["noise_seed"])
-        rxf = rx.astype(float) + case["sigma"] * case["amp"] * rs.standard_normal(len(rx))
-        return ["ppg.syncq " + " ".join([str(case["sps"]), str(len(tx))] + [str(int(b)) for b in tx] + [str(len(rxf))]
-                                        + [frat(Fraction(float(x))) for x in rxf])]
-    return ["ppg.sync " + " ".join([str(case["sps"]), str(len(tx))] + [str(int(b)) for b in tx]
-                                   + [str(len(rx))] + [str(int(x)) for x in rx])]
+        return ["ppg.syncq " + " ".join(head + [frat(Fraction(float(x))) for x in rxf])]
+    return ["ppg.sync " + " ".join(head + [str(int(x)) for x in rxf])]
 
 
 def parse_model_segment(seg):
@@ -684,7 +763,7 @@ def compare(case, res, reqs, replies):
         return []
     rep = replies[0]
     if case["kind"] == "sync":
-        return compare_sync(case, res, rep)
+        return compare_sync(case, res, rep, reqs[0].startswith("ppg.syncq "))
     if res.get("status") != "ok":
         return [f"harness could not run the history: {res}"]
     if not rep.startswith("ok ;"):
@@ -726,11 +805,11 @@ def compare(case, res, reqs, replies):
     return out
 
 
-def compare_sync(case, res, rep):
+def compare_sync(case, res, rep, rational=False):
     t = rep.split()
     if res["status"] == "timeout":
         return []
-    if case.get("sigma", 0):              # `ppg.syncq`: the same definitions run over Rat on the noisy record
+    if rational:                          # `ppg.syncq`: the same definitions run over Rat on the noisy record
         if t[0] == "err":
             return [] if (res["status"] == "err" and res["err"] == t[1]) else \
                 [f"rational model raises {t[1]}, implementation {res.get('index', res.get('err'))}"]
@@ -1065,6 +1144,8 @@ def oracle_sync(case, res):
         return []
     if res["status"] == "err" and res.get("err") == "BufferError":
         return [("C20:sync-buffer-error", f"record of {n} samples >= pattern {l} rejected with BufferError")]
+    if case.get("pat_kind") == "list" and res["status"] == "err" and res.get("err") == "TypeError":
+        return []                         # documented: slots_tx must be a binary_sequence or an ndarray
     demanded = (case["pat"]["k"] == "prbs" and case["pat"]["n"] >= 32 and case["sps"] >= 1 and res["aperiodic"]
                 and case.get("rxlen") is None and case["periods"] >= 2 and d < l and case["amp"] > 0
                 and case.get("offset", 0) == 0)
@@ -1080,14 +1161,17 @@ def oracle_sync(case, res):
     if demanded:
         if res["status"] != "ok":
             v.append(("C20:sync-rejected", f"PRBS{case['pat']['order']}[{case['pat']['n']}] sps={case['sps']} d={d} fill={case['fill']} "
-                                           f"sigma={case.get('sigma', 0)}: {res.get('detail')}"))
+                                           f"sigma={case.get('sigma', 0)} record={(case.get('codes') or {}).get('dtype', 'float64')} pattern={case.get('pat_kind', 'int64')}: "
+                                           f"{res.get('detail')}"))
         else:
             if res["index"] != d:
                 v.append(("C20:sync-index", f"PRBS{case['pat']['order']}[{case['pat']['n']}] sps={case['sps']} fill={case['fill']} "
-                                            f"sigma={case.get('sigma', 0)}: returned {res['index']}, delay is {d}"))
+                                            f"sigma={case.get('sigma', 0)} record={(case.get('codes') or {}).get('dtype', 'float64')} pattern={case.get('pat_kind', 'int64')}: "
+                                            f"returned {res['index']}, delay is {d}"))
             if not res["sig_ok"] or res["outlen"] != n - l or res["cls"] != "electrical_signal":
                 v.append(("C20:sync-signal", f"returned signal (len {res['outlen']}, {res['cls']}) is not the record from sample {res['index']} on"))
-    elif res["status"] == "ok" and res["aperiodic"] and not case.get("sigma") and l > 0 and case.get("rxlen") is None \
+    elif res["status"] == "ok" and res["aperiodic"] and not case.get("sigma") and not case.get("codes") and l > 0 \
+            and case.get("rxlen") is None \
             and case["periods"] >= 2 and d < l and case["amp"] > 0 and case["fill"] == "cyclic":
         if res["index"] != d:
             v.append(("C20:sync-index", f"aperiodic pattern, noise-free: returned {res['index']}, delay is {d}"))
@@ -1099,9 +1183,16 @@ def oracle_sync(case, res):
 
 
 def oracle(case, res):
-    if case["kind"] == "hist":
-        return oracle_hist(case, res)
-    return oracle_sync(case, res)
+    v = oracle_hist(case, res) if case["kind"] == "hist" else oracle_sync(case, res)
+    td = res.get("twin_diff")
+    if td:
+        if case["kind"] == "hist":
+            for d_ in td[:3]:
+                v.append((f"C20:positional:{d_['func']}", f"{d_['func']} called positionally in the documented order {PPG_SIGNATURES[d_['func']]} "
+                                                          f"differs from the keyword call in {d_['field']}: {d_['positional']} vs {d_['keyword']}"))
+        else:
+            v.append(("C20:positional:SYNC", f"SYNC called positionally in the documented order {SYNC_SIGNATURE} differs from the keyword call: {td}"))
+    return v
 
 
 # ------------------------------------------------------------------------------------------------------------------
@@ -1471,6 +1562,21 @@ def gen_sync_cases(rng, tier):
         l = n * sps
         add(7, n, sps, rng.randrange(l), fill=rng.choice(["cyclic", "zeros"]), sigma=rng.choice([1.0, 1.5, 2.5]), periods=2,
             extra=rng.randrange(0, l), seed=rng.choice([None, 5]))
+    # acquisition dtypes x pattern kinds: raw integer codes of a scope / ADC (values using the dtype's range) and float volts,
+    # pattern as binary_sequence / uint8 / int64 / bool / float ndarray / list (list: documented TypeError)
+    reps = 1 if tier == "quick" else 6
+    for dt in CODE_LEVELS:
+        for pk in PATTERN_KINDS:
+            for r in range(2 * reps):
+                order, n, sps = rng.choice([(7, 127, 8), (7, 127, 2), (7, 127, 1), (7, 64, 3)] if r % 2 == 0 else [(7, 127, 8), (7, 127, 4)])
+                l = n * sps
+                d = 0 if r % 2 == 1 else rng.choice([1, sps, l // 2 + 1, l - 1, rng.randrange(l)])
+                add(order, n, sps, d, fill=rng.choice(["cyclic", "cyclic", "zeros"]), periods=rng.choice([2, 3]), extra=rng.randrange(0, l),
+                    codes={"dtype": dt}, pat_kind=pk, noise_seed=rng.getrandbits(31))
+    for dt in (["int8", "int16", "uint8"] if tier == "quick" else list(CODE_LEVELS)):
+        for pk in ["binary_sequence", "uint8"]:
+            add(9, 511, 4, rng.choice([0, 0, 1, 2043, rng.randrange(2044)]), periods=2, extra=17, codes={"dtype": dt}, pat_kind=pk,
+                noise_seed=rng.getrandbits(31))
     # short records -> BufferError; exactly one pattern length; just above
     for (order, n, sps) in [(7, 127, 1), (7, 127, 4), (9, 511, 2), (7, 40, 3)]:
         l = n * sps
@@ -1553,6 +1659,10 @@ def features(case, res):
             f.append("periodic-waveform")
         if case["d"] == 0:
             f.append("delay=0")
+        if case.get("codes"):
+            f.append("record-dtype=" + case["codes"]["dtype"])
+        if case.get("pat_kind"):
+            f.append("pattern-kind=" + case["pat_kind"])
         if "margin" in res:
             f.append("margin=" + ("satisfied" if res["margin"] else "not-satisfied"))
     return f
@@ -1567,4 +1677,4 @@ def nontrivial_key(case, res):
         return None
     p = case["pat"]
     return (p["k"], p.get("order"), p.get("n"), p.get("seed"), tuple(p.get("bits", ())), case["sps"], case["d"], case["fill"],
-            case.get("sigma", 0), case.get("rxlen"))
+            case.get("sigma", 0), case.get("rxlen"), (case.get("codes") or {}).get("dtype"), case.get("pat_kind"))
